@@ -923,3 +923,53 @@ def tab_selfclose(p, res):
         else:
             res.ok('SYNTAX_CONFIG[%r] selfClosingStyle == %r' % (s, v))
     res.require_floor(6)
+
+
+# ---------------------------------------------------------------- TAB-MEMBER
+@rule('TAB-MEMBER', 'D', 'a parenthesised list of string literals after `in` has its commas (adjacent literals would be one string and the test a substring test)')
+def tab_member(p, res):
+    """`x in ('class' 'id')` is `x in 'classid'`: the implicit concatenation of adjacent string literals turns a membership test
+    over names into a substring test.  Decided on the token stream (the syntax tree has already folded the literals).
+    Expected count on the reviewed tree: zero; a positive example is matched on every run."""
+    import io
+    import tokenize
+
+    def scan(src):
+        out = []
+        toks = [t for t in tokenize.generate_tokens(io.StringIO(src).readline) if t.type not in (tokenize.NL, tokenize.COMMENT, tokenize.NEWLINE, tokenize.INDENT, tokenize.DEDENT)]
+        for i, t in enumerate(toks):
+            if t.type == tokenize.NAME and t.string == 'in' and i + 1 < len(toks) and toks[i + 1].string == '(':
+                j = i + 2
+                depth = 1
+                prev_str = False
+                while j < len(toks) and depth:
+                    tj = toks[j]
+                    if tj.string in '([{':
+                        depth += 1
+                        prev_str = False
+                    elif tj.string in ')]}':
+                        depth -= 1
+                        prev_str = False
+                    elif tj.type == tokenize.STRING:
+                        if prev_str and depth == 1:
+                            out.append(tj.start[0])
+                        prev_str = True
+                    else:
+                        prev_str = False
+                    j += 1
+        return out
+    if scan("ok = name in ('class' 'id')\n") != [1] or scan("ok = name in ('class', 'id')\n") != []:
+        raise AnalysisError('TAB-MEMBER: matcher self-test failed')
+    res.ok('matcher self-test')
+    n = 0
+    for m in p.modules.values():
+        n += 1
+        try:
+            hits = scan(m.src)
+        except (tokenize.TokenError, IndentationError):
+            raise AnalysisError('TAB-MEMBER: cannot tokenize %s' % m.relpath)
+        for ln in hits:
+            line = m.src.splitlines()[ln - 1].strip()
+            res.bad(Finding('TAB-MEMBER', m.relpath, m.name[6:], line, 'adjacent string literals inside the parenthesised operand of `in` are concatenated: this is a substring test against one string, not a membership test over the listed names', ln))
+    res.ok('%d modules scanned' % n)
+    res.require_floor(2)
